@@ -32,7 +32,7 @@ Proof. reflexivity. Qed.
 
 Lemma call_path_named c n t cfgs :
   ref_path c (segs_of n) = Some (t, cfgs) -> call_path c (t_id t) (Some n) = Some cfgs.
-Proof. intros H. unfold call_path. rewrite H, PeanoNat.Nat.eqb_refl. reflexivity. Qed.
+Proof. intros H. unfold call_path, path_if. rewrite H, PeanoNat.Nat.eqb_refl. reflexivity. Qed.
 
 (** the specification's path of a named call = the configurations the model merges for it *)
 Lemma named_call_path_level ns fs c0 n t cfgs :
